@@ -229,6 +229,34 @@ void op_utf8item(const char* hex) {
     if (bs) cbor_decref(&bs);
     free(z);
   } else printf("string=skip ");
+  /* a handle attached to an item that already held other (valid, multi-byte) text: the count must be that of the new bytes */
+  cbor_item_t* s2 = cbor_new_definite_string();
+  if (s2) {
+    extern _cbor_malloc_t _cbor_malloc; extern _cbor_free_t _cbor_free;
+    static const unsigned char first[] = {'h', 0xc3, 0xa9, 'l', 'l', 'o', 0xe2, 0x82, 0xac, 0xf0, 0x9f, 0x98, 0x80};
+    unsigned char* h1 = _cbor_malloc(sizeof first); memcpy(h1, first, sizeof first);
+    cbor_string_set_handle(s2, h1, sizeof first);
+    _cbor_free(h1);
+    unsigned char* h2 = _cbor_malloc(n ? n : 1); if (n) memcpy(h2, b, n);
+    cbor_string_set_handle(s2, h2, n);
+  }
+  item_report("rehandle", s2, b, n);
+  if (s2) cbor_decref(&s2);
+  /* the same bytes as the only chunk of an indefinite text string: decoded (the chunk is a definite text string), and copied */
+  {
+    struct xbuf ie; ie.base = malloc(hl + n + 3); ie.p = ie.base; ie.n = hl + n + 2;
+    ie.p[0] = 0x7f; memcpy(ie.p + 1, head, hl); if (n) memcpy(ie.p + 1 + hl, b, n); ie.p[1 + hl + n] = 0xff;
+    struct xbuf ix = exact_copy(ie.p, ie.n); free(ie.base);
+    cbor_item_t* li = cbor_load(ix.p, ix.n, &lr);
+    free_exact(ix);
+    if (li && cbor_isa_string(li) && cbor_string_is_indefinite(li) && cbor_string_chunk_count(li) == 1) {
+      item_report("chunk", cbor_string_chunks_handle(li)[0], b, n);
+      cbor_item_t* ci = cbor_copy(li);
+      if (ci && cbor_string_chunk_count(ci) == 1) item_report("chunkcopy", cbor_string_chunks_handle(ci)[0], b, n); else printf("chunkcopy=null ");
+      if (ci) cbor_decref(&ci);
+    } else printf("chunk=null ");
+    if (li) cbor_decref(&li);
+  }
   if (a) cbor_decref(&a);
   if (s) cbor_decref(&s);
   if (l) cbor_decref(&l);
